@@ -11,6 +11,7 @@ import checks_codec as cc
 import checks_extend
 import checks_fuzz
 import checks_text
+import checks_gser
 
 
 def c01(tier, seed):
@@ -40,9 +41,9 @@ def c06(tier, seed):
                                     'thorough': (['tests/test_oer.py', 'tests/test_codecs_consistency.py'], 'not c_source')})
 
 
-REPLAYERS = {}
+REPLAYERS = {'C20': lambda rp, seed: checks_gser.c20_replay(rp['_path'], seed)}
 
-CHECKS = {'C02': checks_text.c02, 'C08': checks_fuzz.c08, 'C07': checks_extend.c07, 'C06': c06, 'C05': c05, 'C01': c01, 'C03': c03, 'C16': c16}
+CHECKS = {'C20': checks_gser.c20, 'C02': checks_text.c02, 'C08': checks_fuzz.c08, 'C07': checks_extend.c07, 'C06': c06, 'C05': c05, 'C01': c01, 'C03': c03, 'C16': c16}
 
 
 def setup():
@@ -75,5 +76,6 @@ def replay(prop, path, seed):
     """Re-execute exactly the recorded case through the same pipeline."""
     with open(path) as f:
         rp = json.load(f)
+    rp['_path'] = path
     import replay as rpl
     return rpl.replay(prop, rp, seed)
